@@ -61,8 +61,8 @@ EXPECTED_PROBES = ['relevance_with_precomputed_distances', 'non_contiguous_calle
 
 def arms(tier):
     if tier == "thorough":
-        return [("learn_adv", 1_800_000), ("learn_uni", 700_000), ("prune", 1_000_000), ("relevance", 1_500_000), ("seq", 900_000)]
-    return [("learn_adv", 60_000), ("learn_uni", 25_000), ("prune", 40_000), ("relevance", 60_000), ("seq", 30_000)]
+        return [("learn_adv", 1_800_000), ("learn_uni", 700_000), ("prune", 1_000_000), ("relevance", 1_500_000), ("seq", 900_000), ("learn_bigval", 40_000)]
+    return [("learn_adv", 60_000), ("learn_uni", 25_000), ("prune", 40_000), ("relevance", 60_000), ("seq", 30_000), ("learn_bigval", 1_500)]
 
 
 def hist_slice(tier):
@@ -72,10 +72,18 @@ def hist_slice(tier):
 def gen_case(rng, arm, tier, k=0):
     K = rng.randint(2, 3)
     d = rng.randint(1, 3)
-    style = rng.choice(("generic", "lattice", "dups", "positive", "lattice"))
-    metric = rng.choice(SYMMETRIC_SAFE if style == "positive" else ["euclidean", "squared_euclidean", "log_squared_euclidean", "manhattan", "chebyshev", "log_euclidean"])
+    style = rng.choice(("generic", "lattice", "dups", "positive", "lattice", "zeros"))
+    metric = rng.choice(SYMMETRIC_SAFE if style in ("positive", "zeros") else ["euclidean", "squared_euclidean", "log_squared_euclidean", "manhattan", "chebyshev", "log_euclidean"])
+    if style in ("lattice", "dups") and rng.random() < 0.3:
+        metric = rng.choice(("canberra", "bray_curtis", "soergel", "squared_chord", "hellinger"))  # non-negative data with exact zeros
     nt = rng.randint(max(3, K), 10)
     nv = rng.randint(max(2, K), 8)
+    if arm == "learn_bigval":
+        # hundreds of validation samples per class: accuracies of successive iterations may differ
+        # by 1e-6, and a better one must still win
+        K, d, style, metric = 2, rng.randint(1, 2), "lattice", rng.choice(("euclidean", "manhattan"))
+        nt = rng.randint(3, 6)
+        nv = rng.choice((450, 601, 700))
     case = {
         "op": "learn" if arm.startswith("learn") else arm,
         "metric": metric,
@@ -84,10 +92,27 @@ def gen_case(rng, arm, tier, k=0):
         "Yt": gen_labels(rng, nt, K),
         "Xv": gen_matrix(rng, nv, d, style),
         "Yv": gen_labels(rng, nv, K),
-        "iters": rng.choice((1, 2, 3, 4, 5, 6, 8, 10)),
+        "iters": rng.choice((1, 2, 3, 4, 5, 6, 8, 10)) if arm != "learn_bigval" else rng.choice((3, 5, 8)),
         "fallback": rng.getrandbits(32),
     }
-    if rng.random() < 0.3:
+    if arm == "learn_bigval":
+        # two classes of almost equal size, most validation rows classified correctly
+        half = nv // 2
+        case["Yv"] = [0] * half + [1] * (nv - half)
+        for i in range(nv):
+            j = rng.randrange(nt)
+            case["Xv"][i] = list(case["Xt"][j])
+            if rng.random() < 0.97:
+                case["Yv"][i] = case["Yv"][i]
+        # labels of the training rows decide correctness: make row j's label the majority
+        for i in range(nv):
+            if rng.random() < 0.9:
+                j = rng.randrange(nt)
+                case["Xv"][i] = list(case["Xt"][j])
+                case["Yv"][i] = case["Yt"][j]
+        if set(case["Yv"]) != {0, 1}:
+            case["Yv"][0], case["Yv"][1] = 0, 1
+    elif rng.random() < 0.3:
         # validation rows near/equal to training rows: high accuracies, ties between iterations
         for i in range(nv):
             j = rng.randrange(nt)
